@@ -651,7 +651,11 @@ def RoundR.threshold (pl : PlayerF) (rr : RoundR) (e : Thresh) : Except Panic (R
   | .error err => .error err
   | .ok (rr, ()) =>
     let ea := rr.store.asm e.proposal
-    if ea.payload.isSome then .ok (rr, some (e.proposal, ea.authenticator pl.period))
+    -- `store.Relevant[te.Period] = e.Proposal` precedes the `Assembled` test (repo commit b6f661fbce): the staged value
+    -- stays relevant for its period also when its payload is already here
+    if ea.payload.isSome then
+      .ok ({ rr with store := { rr.store with relevant := aset rr.store.relevant e.period e.proposal } },
+           some (e.proposal, ea.authenticator pl.period))
     else
       let st := { rr.store with assemblers := aset rr.store.assemblers e.proposal ea,
                                 relevant := aset rr.store.relevant e.period e.proposal }
